@@ -28,6 +28,9 @@ type Result struct {
 	Violation *Violation `json:"violation,omitempty"`
 	Harness   string     `json:"harness,omitempty"`
 	Overrun   bool       `json:"overrun,omitempty"`
+	// Poisoned: goroutines of this run may still be alive (engine B only); the worker
+	// process must not start another run.
+	Poisoned bool `json:"poisoned,omitempty"`
 	Stats     Stats      `json:"-"`
 	SigShape  uint64     `json:"-"`
 	SigSched  uint64     `json:"-"`
@@ -118,6 +121,10 @@ func RunOne(scn *Scenario, tier string, seed uint64, c *Choices, logOn bool) *Re
 		if scn.LeakIsViolation {
 			res.Violation = &Violation{Property: scn.Property, Class: "leak:blocked-goroutines",
 				Detail: "the run ended with goroutines still blocked: " + leak}
+		} else if EngineB {
+			// Engine B's oracle is the race detector; it has no quiescence detection, so
+			// stragglers are not a verdict. Discard the run and retire this process.
+			res.Overrun, res.Poisoned = true, true
 		} else {
 			res.Harness = "bubble ended with blocked goroutines: " + leak
 		}
